@@ -1,8 +1,268 @@
-"""Evaluation loops (evaluate_full_circuit, evaluate_circuit) under contract — shared by C01 and C15."""
+"""Evaluation loops under contract (shared by C01 and C15).
+
+evaluate_full_circuit(assignment) on an arbitrary well-formed circuit with ARITY, for a total Boolean
+assignment of the inputs: after the call every gate of the circuit holds den(gate), where den is the
+specification function defined by  den(g) = OP(type g)(den(operands g))  (n-ary types: the fold), inputs
+read the assignment. Loop invariants (closed-form state per iteration):
+  loop 1 (setdefault over the inputs): keys = assignment keys ∪ first k inputs, new ones Undefined;
+  loop 2 (over top_sort(inverse=True), by ITS CONTRACT — every gate exactly once, operands before users):
+          the gates yielded so far hold den, everything else is as after loop 1.
+The top_sort contract is an assumption here (bounded under C20)."""
+import z3
+
+from ..pyvc.values import Sym, LabelSort, StateSort, GTypeSort, GT, ST_T, ST_F, ST_U, Obj, Native, Unsupported, PyRaise
+from ..pyvc.interp import Model, _simp
+from ..pyvc.models import SymSeq
+from ..pyvc.prove import Contract
+from ..pyvc import circuit_model as CM
+from ..pyvc import theory
+from ..spec import ops as S
+from .C14 import arity_pre
+
+CIRC = 'cirbo/core/circuit/circuit.py'
+I = z3.IntSort()
+B = z3.BoolSort()
+
+
+class AssignMap(Model):
+    """dict[label -> GateState] in functional form: dom(l), val(l)"""
+
+    def __init__(self, dom, val):
+        self.dom, self.val = dom, val
+        self.events = []
+
+    def m_copy_dict(self, it):
+        return AssignMap(self.dom, self.val)
+
+    def m_contains(self, it, k):
+        return _simp(self.dom(it.label_term(k)))
+
+    def m_getitem(self, it, k):
+        kt = it.label_term(k)
+        if not it.ctx.choose(_simp(self.dom(kt))):
+            it.raise_('KeyError', 'assignment')
+        return Sym(self.val(kt))
+
+    def m_setitem(self, it, k, v):
+        kt, vt = it.label_term(k), it.state_term(v)
+        d, f = self.dom, self.val
+        self.dom = lambda l: z3.Or(l == kt, d(l))
+        self.val = lambda l: z3.If(l == kt, vt, f(l))
+
+    def m_getattr(self, it, name):
+        if name == 'setdefault':
+            def setdefault(k, default=None):
+                kt, vt = it.label_term(k), it.state_term(default)
+                d, f = self.dom, self.val
+                self.dom = lambda l: z3.Or(l == kt, d(l))
+                self.val = lambda l: z3.If(z3.And(l == kt, z3.Not(d(l))), vt, f(l))
+                return Sym(self.val(kt))
+            return Native('dict.setdefault', setdefault)
+        raise Unsupported('assignment dict method ' + name)
+
+    def m_map_lookup(self, it, seq):
+        """(self[x] for x in seq): all keys must be present (else KeyError) — one obligation, no fork"""
+        i = it.ctx.fresh(I, 'ilk')
+        it.ctx.check('operand-values-available', z3.Implies(z3.And(i >= 0, i < seq.n), self.dom(seq.elem(i))), {'witness': 'KeyError'})
+        val = self.val
+        s = SymSeq([], seq.n, lambda j: Sym(val(seq.elem(j))), 'tuple')
+        owner = getattr(seq, 'owner', None)
+        if owner is not None and getattr(it, 'fold_for', None) is not None:
+            it.fold_for(s, owner)
+        return s
+
+
+class InputsLoop:
+    """for _input in self._inputs: assignment_dict.setdefault(_input, Undefined)"""
+
+    def __init__(self, h, amap_of):
+        self.h, self.amap_of = h, amap_of
+        self.base = None
+
+    def applies(self, it, env, iterable):
+        return isinstance(iterable, CM.LabelList)
+
+    def _setup(self, it, env):
+        if self.base is not None:
+            return
+        am = self.amap_of(env)
+        self.base = (am.dom, am.val)
+        S0 = self.h.S
+        pm = z3.Function('pm_inputs', I, LabelSort, B)
+        self.pm = pm
+        k, l = z3.Int('k!pm'), z3.Const('l!pm', LabelSort)
+        ctx = it.ctx
+        ctx.assume(z3.ForAll([l], z3.Not(pm(0, l))))
+        ctx.assume(z3.ForAll([k, l], z3.Implies(z3.And(k >= 0, k < S0.in_n), pm(k + 1, l) == z3.Or(pm(k, l), S0.in_elem(k) == l)), patterns=[pm(k + 1, l)]))
+        ctx.assume(z3.ForAll([l], pm(S0.in_n, l) == (S0.in_cnt(l) > 0)))       # list representation fact: membership = some position holds it
+
+    def closed(self, k):
+        d0, v0 = self.base
+        pm = self.pm
+        return (lambda l: z3.Or(d0(l), pm(k, l))), (lambda l: z3.If(d0(l), v0(l), ST_U))
+
+    def inv(self, it, env, k):
+        self._setup(it, env)
+        am = self.amap_of(env)
+        d, v = self.closed(k)
+        l = it.ctx.fresh(LabelSort, 'linv')
+        return [('keys', am.dom(l) == d(l)), ('values', z3.Implies(d(l), am.val(l) == v(l)))]
+
+    def install(self, it, env, k):
+        self._setup(it, env)
+        am = self.amap_of(env)
+        am.dom, am.val = self.closed(k)
+
+
+class YieldSeq(Model):
+    """result of top_sort(inverse=True) by contract: the gates y(0..n-1), n = number of gates"""
+
+    def __init__(self, h, y, n):
+        self.h, self.y, self.n = h, y, n
+        self.prefix = []
+
+    def elem(self, i):
+        return CM.make_gate_obj_i(self.it, self.h.S, self.y(i))
+
+    def concrete_len(self, it=None):
+        return None
+
+
+class TopSortLoop:
+    def __init__(self, h, amap_of, spec):
+        self.h, self.amap_of, self.spec = h, amap_of, spec
+        self.base = None
+
+    def applies(self, it, env, iterable):
+        return isinstance(iterable, YieldSeq)
+
+    def _setup(self, it, env):
+        if self.base is None:
+            am = self.amap_of(env)
+            self.base = (am.dom, am.val)
+
+    def closed(self, k):
+        d1, v1 = self.base
+        S0, pos, D = self.h.S, self.spec['pos'], self.spec['D']
+        done = lambda l: z3.And(S0.dom(l), S0.typ(l) != GT['INPUT'], pos(l) < k)
+        return (lambda l: z3.Or(d1(l), done(l))), (lambda l: z3.If(done(l), theory.state_of_bool(D(l)), v1(l)))
+
+    def inv(self, it, env, k):
+        self._setup(it, env)
+        am = self.amap_of(env)
+        d, v = self.closed(k)
+        l = it.ctx.fresh(LabelSort, 'linv')
+        return [('keys', am.dom(l) == d(l)), ('values', z3.Implies(d(l), am.val(l) == v(l)))]
+
+    def install(self, it, env, k):
+        self._setup(it, env)
+        am = self.amap_of(env)
+        am.dom, am.val = self.closed(k)
+
+
+def den_spec(ctx, S0, val_in, tag='D'):
+    """Specification den over an arbitrary WF circuit with ARITY: uninterpreted D(l) with its defining equations.
+    val_in(l): Bool value of input l. Returns dict with D and the fold functions."""
+    D = z3.Function(tag, LabelSort, B)
+    folds = {t: z3.Function(f'F{t}@{tag}', LabelSort, I, B) for t in ('AND', 'OR', 'XOR')}
+    l, k = z3.Const('l!D', LabelSort), z3.Int('k!D')
+    op = S0.op
+    ctx.assume(z3.ForAll([l], z3.Implies(z3.And(S0.dom(l), S0.typ(l) == GT['INPUT']), D(l) == val_in(l))))
+    for t in S.GATE_TYPES:
+        if t == 'INPUT':
+            continue
+        if t in S.NARY:
+            base = {'NAND': 'AND', 'NOR': 'OR', 'NXOR': 'XOR'}.get(t, t)
+            F = folds[base]
+            v = F(l, S0.nops(l) - 2)
+            ctx.assume(z3.ForAll([l], z3.Implies(z3.And(S0.dom(l), S0.typ(l) == GT[t]), D(l) == (z3.Not(v) if t != base else v))))
+        elif t in S.CONST:
+            ctx.assume(z3.ForAll([l], z3.Implies(z3.And(S0.dom(l), S0.typ(l) == GT[t]), D(l) == z3.BoolVal(t == 'ALWAYS_TRUE'))))
+        else:
+            n = 1 if t in S.UNARY else 2
+            ctx.assume(z3.ForAll([l], z3.Implies(z3.And(S0.dom(l), S0.typ(l) == GT[t]), D(l) == theory.OPz(t, [D(op(l, z3.IntVal(j))) for j in range(n)]))))
+    for base, F in folds.items():
+        stepf, _ = theory.step(base)
+        ctx.assume(z3.ForAll([l], F(l, 0) == stepf(D(op(l, 0)), D(op(l, 1)))))
+        ctx.assume(z3.ForAll([l, k], z3.Implies(k >= 0, F(l, k + 1) == stepf(F(l, k), D(op(l, k + 2)))), patterns=[F(l, k + 1)]))
+    return {'D': D, 'folds': folds}
+
+
+class EvaluateFull(Contract):
+    relpath, qualname, name = CIRC, 'Circuit.evaluate_full_circuit', 'evaluate_full_circuit'
+
+    def setup(self, it, ctx):
+        c, h = CM.make_circuit(it, ctx, tag='c')
+        S0 = h.S
+        l = z3.Const('L!ar', LabelSort)
+        ctx.assume(z3.ForAll([l], z3.Implies(S0.dom(l), arity_pre(S0, l))))          # ARITY (W6)
+        ctx.assume(z3.ForAll([l], S0.rank(l) >= 0))
+        # the argument: keys = exactly some labels incl. possibly extra ones; inputs that are keys have Boolean values
+        ad = z3.Function('adom', LabelSort, B)
+        av = z3.Function('aval', LabelSort, StateSort)
+        ctx.assume(z3.ForAll([l], z3.Implies(S0.in_cnt(l) > 0, z3.And(ad(l), av(l) != ST_U))))      # total Boolean assignment of the inputs
+        ctx.assume(z3.ForAll([l], z3.Implies(ad(l), z3.Or(S0.in_cnt(l) > 0, z3.Not(S0.dom(l))))))     # other keys are not gates of the circuit
+        am = AssignMap(lambda x: ad(x), lambda x: av(x))
+        spec = den_spec(ctx, S0, lambda x: av(x) == ST_T)
+        # contract of top_sort(inverse=True): a bijection pos between gates and 0..size-1, operands first
+        pos = z3.Function('pos', LabelSort, I)
+        y = z3.Function('yield', I, LabelSort)
+        i = z3.Int('i!ts')
+        n = S0.size
+        ctx.assume(z3.ForAll([i], z3.Implies(z3.And(i >= 0, i < n), z3.And(S0.dom(y(i)), pos(y(i)) == i))))
+        ctx.assume(z3.ForAll([l], z3.Implies(S0.dom(l), z3.And(pos(l) >= 0, pos(l) < n, y(pos(l)) == l))))
+        ctx.assume(z3.ForAll([l, i], z3.Implies(z3.And(S0.dom(l), i >= 0, i < S0.nops(l)), pos(S0.op(l, i)) < pos(l))))
+        spec['pos'] = pos
+        st = {'h': h, 'S0': S0, 'am': am, 'spec': spec, 'ad': ad, 'av': av}
+
+        def top_sort(it_, fv, args, kwargs):
+            if not kwargs.get('inverse'):
+                raise Unsupported('top_sort(inverse=False) has no contract here')
+            ys = YieldSeq(h, lambda j: y(j), n)
+            ys.it = it_
+            return ys
+        it.contracts[CIRC + '::Circuit.top_sort'] = top_sort
+        find = lambda env: env['assignment_dict']
+        it.loop_specs[(CIRC + '::Circuit.evaluate_full_circuit', 1)] = InputsLoop(h, find)
+        it.loop_specs[(CIRC + '::Circuit.evaluate_full_circuit', 2)] = TopSortLoop(h, find, spec)
+
+        def fold_for(seq, owner):
+            """fold invariant of reduce over the operand values of gate `owner` (rest index k: k+2 operands consumed)"""
+            def inv(it_, acc, k):
+                t = S0.typ(owner)
+                cases = []
+                for base in ('AND', 'OR', 'XOR'):
+                    neg = {'AND': 'NAND', 'OR': 'NOR', 'XOR': 'NXOR'}[base]
+                    cases.append(z3.Implies(z3.Or(t == GT[base], t == GT[neg]), it_.state_term(acc) == theory.state_of_bool(spec['folds'][base](owner, k))))
+                return [('acc-is-fold', z3.And(cases))]
+            seq.fold_inv = inv
+            seq.fold_havoc = lambda it_: Sym(it_.ctx.fresh(StateSort, 'acc'))
+        it.fold_for = fold_for
+        return [c, am], {}, st
+
+    def post(self, it, ctx, result, st):
+        it.fold_for = None
+        S0, D = st['S0'], st['spec']['D']
+        if not isinstance(result, AssignMap):
+            yield ('returns-the-assignment-dict', z3.BoolVal(False))
+            return
+        l = ctx.fresh(LabelSort, 'lres')
+        yield ('every-gate-has-a-value', z3.Implies(S0.dom(l), result.dom(l)))
+        yield ('every-gate-holds-den', z3.Implies(S0.dom(l), result.val(l) == theory.state_of_bool(D(l))), {'witness': 'den'})
+        yield ('circuit-unchanged', z3.BoolVal(not [e for e in st['h'].events if e[0] in ('gate-write', 'gate-del')]))
+
+    def on_raise(self, it, ctx, exc, st):
+        it.fold_for = None
+        return Contract.on_raise(self, it, ctx, exc, st)
 
 
 def add_c01(rep, pv, it):
-    pass
+    it.loop_specs.clear()
+    it.contracts.clear()
+    pv.run_contract(EvaluateFull())
+    it.loop_specs.clear()
+    it.contracts.clear()
+    it.fold_for = None
 
 
 def add_c15(rep, pv, it):
